@@ -307,27 +307,8 @@ def run(ctx):
         ctx.violation("c12.exit", "c12.exit|polygon-normal", "Polygon::normal looks at vertices %s only (no loop over the outline): for a non-convex polygon whose second vertex is a reflex "
                       "corner the cross product of the first two edges has the opposite sign of the polygon's orientation, the wall's normal points inwards and "
                       "sunlit_fraction returns 0 (sun behind the window) at every hour" % idx_consts, pn.loc())
-    # the window's position is given in the frame of its wall's polygon (origin at the first vertex, X along the first side): the sample points are carried
-    # to world coordinates through to_polygon_coords_matrix and then to_global_coords_matrix.  The reveal surfaces of the same window must be placed through
-    # the same two frames, or they are somewhere else than the window whenever the wall's polygon does not start at (0,0) along +X
-    def frames_used(fn_):
-        out = set()
-        for f_ in [fn_] + prog.closures_of(fn_):
-            for _, t_ in f_.body.calls():
-                s_ = short_callee(callee_name(t_) or "")
-                if s_ in ("to_global_coords_matrix", "to_polygon_coords_matrix"):
-                    out.add(s_)
-        return out
-    rof_ = prog.method("types::model::Model", None, "ray_origins_for_window")
-    sfs_ = prog.find("bemodel::types::window::Window::shades_for_setback")
-    fa, fb = frames_used(rof_), frames_used(sfs_)
-    ctx.require("to_global_coords_matrix" in fa and "to_global_coords_matrix" in fb, "frame functions of the window position not found (%s / %s)" % (sorted(fa), sorted(fb)))
-    if fa == fb:
-        ctx.ok("c12.occluders", "c12.occluders|reveal-frame", "sample points and reveal surfaces of a window go through the same frames (%s)" % sorted(fa), sfs_.loc())
-    else:
-        ctx.violation("c12.occluders", "c12.occluders|reveal-frame", "the sample points of a window are placed through %s, its reveal surfaces through %s: on a wall whose polygon does "
-                      "not start at (0,0) with its first side along +X (roofs and floors that keep the outline of their space) the reveals are built away from the window "
-                      "and do not shade it" % (sorted(fa), sorted(fb)), sfs_.loc())
+    from ._reveal import check_reveal_frame
+    check_reveal_frame(ctx, "c12.occluders", "c12.occluders")
     # ... and none of the candidates is forgotten on the way into the acceleration structure (the conservation rule of C13)
     from .c13 import check_node_list_conservation
     check_node_list_conservation(ctx, prog, "c12.conserve")
